@@ -336,6 +336,20 @@ class ObjNumpy:
         return self._onp.array(x, dtype=object)
 
     asarray = array
+    float32 = "float32"  # dtype tokens are only ever passed on (astype of a stand-in)
+    float64 = "float64"
+
+    def mean(self, x, *a, **k):
+        """delegates to the stand-in's own statistic (a data stand-in carries its mean/std as solver symbols)"""
+        if hasattr(x, "mean") and not isinstance(x, self._onp.ndarray):
+            return x.mean()
+        xs = list(self._onp.asarray(x, dtype=object).reshape(-1))
+        return self.sum(xs) / len(xs)
+
+    def std(self, x, *a, **k):
+        if hasattr(x, "std") and not isinstance(x, self._onp.ndarray):
+            return x.std()
+        raise Inconclusive("numpy.std of a symbolic array is not modelled (square root)")
 
     def __getattr__(self, n):
         raise Inconclusive(f"numpy function `{n}` is not modelled by ObjNumpy")
@@ -885,7 +899,7 @@ def run_scenario(scenario, modules, extra_patch=None, timeout_ms=20000, max_path
             except Exception as ex:  # the code under test raised on this path (e.g. an internal assert): that is an observable failure
                 import traceback
                 tb = traceback.extract_tb(ex.__traceback__)
-                where = [f"{f.name}:{f.lineno}" for f in tb if "/repo/" in f.filename][-2:]
+                where = [f"{f.name}:{f.lineno}" for f in tb if "/rex/" in f.filename][-2:]
                 res = {"the handlers raise no exception": SymBool(z3.BoolVal(False)), "_exception": f"{type(ex).__name__}: {ex} at {where}"}
         return V, res
 
